@@ -171,6 +171,9 @@ type State struct {
 	outVals   []outVal
 	reApps    []reApp
 	owned     map[int]bool // objects owned through sync.Pool.Get
+	bdom      map[*Term]byteSet
+	twinLeaves []twinLeaf
+	Approx    bool // an over-approximating stub was used on this path
 	steps     int
 }
 
@@ -211,6 +214,12 @@ func (s *State) clone() *State {
 	}
 	if s.AccessLog != nil {
 		n.AccessLog = s.AccessLog.clone()
+	}
+	if s.bdom != nil {
+		n.bdom = make(map[*Term]byteSet, len(s.bdom))
+		for k, v := range s.bdom {
+			n.bdom[k] = v
+		}
 	}
 	n.owned = make(map[int]bool, len(s.owned))
 	for k, v := range s.owned {
@@ -258,6 +267,7 @@ func (s *State) assume(c *Term) {
 	s.pc = append(s.pc, c)
 	s.decided[c] = true
 	s.decided[s.W.Pool.Not(c)] = false
+	s.noteByteConstraint(c)
 }
 
 // decide resolves a symbolic Boolean, forking when both outcomes are feasible.
@@ -269,6 +279,39 @@ func (s *State) decide(c *Term, label string) bool {
 		return v
 	}
 	w := s.W
+	if v, ok := singleByteVar(c, w.sbvCache); ok {
+		t, f := s.splitByte(c, v)
+		w.DomainDecisions++
+		// the solver stays the authority: re-check a seeded fraction of the
+		// domain verdicts (all of them when the rate is 1)
+		if w.recheckDue() {
+			w.DomainRechecks++
+			rt, _ := w.Solver.Check(s.pc, []*Term{c}, nil)
+			rf, _ := w.Solver.Check(s.pc, []*Term{w.Pool.Not(c)}, nil)
+			if (rt == Sat) == t.empty() || (rf == Sat) == f.empty() || rt == Unknown || rf == Unknown {
+				w.DomainDisagreements++
+				s.abort("byte-domain verdict disagrees with the solver on %s", c.str)
+			}
+		}
+		switch {
+		case t.empty() && f.empty():
+			panic(skipReq{msg: "infeasible path (empty byte domain)"})
+		case t.empty():
+			s.decided[c] = false
+			return false
+		case f.empty():
+			s.decided[c] = true
+			return true
+		}
+		s.fork(label, 2, func(n *State, i int) {
+			if i == 0 {
+				n.assume(c)
+			} else {
+				n.assume(w.Pool.Not(c))
+			}
+		})
+		return false
+	}
 	w.BranchQueries++
 	rt, _ := w.Solver.Check(s.pc, []*Term{c}, nil)
 	if rt == Unknown {
